@@ -109,8 +109,29 @@ class Ctx:
 def execute_scenario(mod, scenario, tier="quick", keep=False, deadline=None):
     from . import core
 
-    sandbox = os.path.join(core.SANDBOX_PARENT, f"mhlsim-{os.getpid()}", f"r{time.monotonic_ns()}")
-    os.makedirs(sandbox)
+    # The sandbox path is a function of the scenario alone: absolute paths end up in Python sets inside the code under
+    # test, so a pid- or time-dependent path would make set iteration order (hence e.g. the pairing of ambiguous
+    # renames) differ between a run and its replay.
+    key = hashlib.sha1(json.dumps(scenario, sort_keys=True, default=str).encode()).hexdigest()[:16]
+    parent = os.path.join(core.SANDBOX_PARENT, "mhlsim")
+    os.makedirs(parent, exist_ok=True)
+    sandbox = os.path.join(parent, "s" + key)
+    waited = 0.0
+    while True:
+        try:
+            os.mkdir(sandbox)
+            break
+        except FileExistsError:
+            # the same scenario is being executed by another process right now (or was left behind by a killed one)
+            try:
+                age = time.time() - os.stat(sandbox).st_mtime
+            except FileNotFoundError:
+                continue
+            if age > 300 or waited > 120:
+                shutil.rmtree(sandbox, ignore_errors=True)
+                continue
+            time.sleep(0.05)
+            waited += 0.05
     ctx = Ctx(sandbox, tier)
     ctx.deadline = deadline
     try:
@@ -258,7 +279,6 @@ def worker_main(pid, tier, verif_seed, widx, nworkers, count, budget_s, outfile)
             out.flush()
         out.write(json.dumps({"worker_done": widx, "wall_s": time.time() - t0}) + "\n")
     faulthandler.cancel_dump_traceback_later()
-    shutil.rmtree(os.path.join(core.SANDBOX_PARENT, f"mhlsim-{os.getpid()}"), ignore_errors=True)
 
 
 # --- replay -------------------------------------------------------------------------------------------------------------
